@@ -51,6 +51,9 @@ class Obligation:
 def _env(extra=None):
     e = dict(os.environ)
     e["PYTHONPATH"] = ROOT + os.pathsep + e.get("PYTHONPATH", "")
+    if e.get("VERIF_REPO"):
+        # analyse another checkout of pyrtma (a scratch worktree with a seeded change) instead of /repo: its src comes first
+        e["PYTHONPATH"] = os.path.join(e["VERIF_REPO"], "src") + os.pathsep + e["PYTHONPATH"]
     e.setdefault("PYTHONHASHSEED", "0")
     e.pop("VERIF_SHARD", None)
     if extra:
